@@ -1302,6 +1302,26 @@ void amount_t::print(std::ostream& _out, const uint_least8_t flags) const
   _out << out.str();
 }
 
+#if defined(LEDGER_VERIF)
+string amount_t::verif_rational() const
+{
+  std::ostringstream out;
+  if (! quantity) {
+    out << "null";
+    return out.str();
+  }
+  char * num = mpz_get_str(NULL, 10, mpq_numref(MP(quantity)));
+  char * den = mpz_get_str(NULL, 10, mpq_denref(MP(quantity)));
+  out << num << '/' << den << ':' << quantity->prec << ':'
+      << (quantity->has_flags(BIGINT_KEEP_PREC) ? 1 : 0) << ':';
+  std::free(num);
+  std::free(den);
+  if (has_commodity())
+    commodity().print(out, false, true);
+  return out.str();
+}
+#endif
+
 bool amount_t::valid() const
 {
   if (quantity) {
